@@ -78,7 +78,18 @@ def all_items(prf):
 
 
 def own_sorrys(prf):
-    return [it.th for it in all_items(prf) if it.rule == 'sorry']
+    """placeholders the checker visits: it descends into the sub-proof of a line only if the line's rule is
+    'subproof' (a mutated line 'sorry' that still carries a sub-proof is one placeholder, its body is never read)"""
+    res = []
+
+    def walk(q):
+        for it in q.items:
+            if it.rule == 'sorry':
+                res.append(it.th)
+            elif it.rule == 'subproof' and it.subproof is not None:
+                walk(it.subproof)
+    walk(prf)
+    return res
 
 
 def show(prf):
